@@ -1610,6 +1610,18 @@ def r_edge(E):
                  and any(isinstance(c.func, ast.Attribute) and c.func.attr == "return_direct_ancestors_with_id_to_child"
                          for c in _calls(x))), None)
     if loop is None:
+        # the same collection written as a comprehension: `… parent.return_direct_ancestors_with_id_to_child() for parent
+        # in (self.left_parent, self.right_parent) [if parent is not None]`
+        for comp in [x for x in ast.walk(ini) if isinstance(x, (ast.GeneratorExp, ast.ListComp, ast.SetComp))]:
+            g0 = comp.generators[0]
+            if parents_in(g0.iter) == {"left_parent", "right_parent"} and any(
+                    isinstance(c, ast.Call) and isinstance(c.func, ast.Attribute)
+                    and c.func.attr == "return_direct_ancestors_with_id_to_child" for c in ast.walk(comp.elt)) \
+                    and all(isinstance(t, ast.Compare) and len(t.ops) == 1 and isinstance(t.ops[0], ast.IsNot)
+                            and isinstance(t.comparators[0], ast.Constant) and t.comparators[0].value is None
+                            and norm(t.left) == norm(g0.target) for t in g0.ifs):
+                loop = comp
+    if loop is None:
         res.findings.append(Finding("R-EDGE", "ExplainableObject.__init__ ancestors",
                                     "the constructor no longer collects the ancestors of both parents", rel, ini.lineno,
                                     "ExplainableObject.__init__"))
